@@ -27,6 +27,10 @@ structure PFix where
   f10 : Bool := false   -- `{`+whitespace keeps the pending literal in front
 deriving Repr, DecidableEq
 
+/-- the repairs the repository contains now (`fix:` commits); the correspondence harness runs the
+model with exactly this value (`FX=current`), and the property theorems are stated for it -/
+def PFix.current : PFix := { f9 := true, f10 := true }
+
 structure St where
   state : PState := .literal
   parts : List Part := []      -- in order
